@@ -23,6 +23,8 @@ import DdsModel.Proofs.ConvFloat
 import DdsModel.Proofs.ConvShared
 import DdsModel.Proofs.ConvF16All
 import DdsModel.Proofs.ConvF32Thr
+import DdsModel.Proofs.YuvErr
+import DdsModel.Proofs.F32ErrRound
 import DdsModel.Proofs.Pairing
 import DdsModel.Proofs.FieldsWF
 import DdsModel.Drv.C04
@@ -430,5 +432,141 @@ example : 0x37000080 ∈ Dds.F32Thr.fpN16Dev ∧ 0x3F1C201D ∉ Dds.F32Thr.fpN16
 example : process2x1 (fun i => (2 * i, 2 * i + 1)) 5 = [0, 1, 2, 3, 4] := by decide
 example : biPlanarRows (fun y uv => (y, uv)) 3 2 = [(0, 0), (1, 0), (2, 1)] := by decide
 example : (findFmt "NV12").isSome = true := by decide
+
+/-! ### ===== YUV decoders: ALL inputs (2^24 / 2^30 / 2^48 triples), by a rounding-error bound =====
+
+`yuvTo bits prec y u v` is the operator-by-operator binary32 model of `yuv8/yuv10/yuv16::{n8, n16, f32}`
+(`prec` 0 = U8, 1 = U16, 2 = F32), `Spec.yuv bits y u v` the three ideal values (BT.601 limited range, the documented
+6-decimal constants, exact `Rat`, clamped to [0, 1]).  Reading (DESIGN.md §3, the oracle of `harness/src/c04.rs`):
+an integer code `k` is accepted iff `|k/max − ideal| ≤ 1/(2·max) + τ`, `τ = 2^-12/255` (`Spec.admissible`: the nearest
+code, or either neighbour when the ideal value is within `τ` of a tie); an F32 output iff it is finite and
+`|out − ideal| ≤ τ + 2^-24` (`Spec.admissibleF32`).  `yuvAll P ideal out`: `out` has exactly three channels and `P`
+holds for each.  No enumeration: `Proofs/F32Err.lean` proves the standard model of floating-point arithmetic for the
+software binary32 (each `fmul`/`fadd`/`fsub` on finite operands = exact result rounded once, error ≤ half an ulp of the
+result's binade; integer → float casts and the differences `y − 16` … exact), `Proofs/YuvErr.lean` composes it along
+the Rust expression with interval bounds from the input ranges (rounding of the five matrix constants and of `1/max`
+included) and obtains `|out − ideal| ≤ 10·2^-24` for every F32 channel at every depth; the integer outputs follow from
+`fp_n8/fp_n16_eq_spec_partial` + `…_known_deviation` (all 2^32 patterns) — a code is the nearest code of the FLOAT or
+one above it when the float is the largest one below a tie, i.e. within `1/(2·max) + 2^-24` of the float — and
+`10·2^-24 + 2^-24 ≤ τ = 16.06·2^-24`.  The tolerance needed is therefore the oracle's `τ` at every depth (nothing is
+`_partial` here). -/
+
+/-- `yuv8::n8` (`(sum + 0.5) as u8` on the unnormalised sums), all 2^24 inputs -/
+theorem yuv8_n8_within_tolerance (y u v : Nat) (hy : y < 256) (hu : u < 256) (hv : v < 256) :
+    yuvAll (admissible 255) (Spec.yuv 8 y u v) (yuvTo 8 0 y u v) = true :=
+  Dds.YuvErr.yuv8_n8_ok y u v hy hu hv
+/-- `yuv8::n16` (= `f32` then `fp::n16`), all 2^24 inputs -/
+theorem yuv8_n16_within_tolerance (y u v : Nat) (hy : y < 256) (hu : u < 256) (hv : v < 256) :
+    yuvAll (admissible 65535) (Spec.yuv 8 y u v) (yuvTo 8 1 y u v) = true :=
+  Dds.YuvErr.yuv8_n16_ok y u v hy hu hv
+/-- `yuv8::f32` (`(sum * (1/255)).clamp(0, 1)`), all 2^24 inputs -/
+theorem yuv8_f32_within_tolerance (y u v : Nat) (hy : y < 256) (hu : u < 256) (hv : v < 256) :
+    yuvAll admissibleF32 (Spec.yuv 8 y u v) (yuvTo 8 2 y u v) = true :=
+  (Dds.YuvErr.yuv8_f32_ok y u v hy hu hv).2
+
+/-- `yuv10::n8` (= `f32` then `fp::n8`), all 2^30 inputs -/
+theorem yuv10_n8_within_tolerance (y u v : Nat) (hy : y < 1024) (hu : u < 1024) (hv : v < 1024) :
+    yuvAll (admissible 255) (Spec.yuv 10 y u v) (yuvTo 10 0 y u v) = true :=
+  Dds.YuvErr.yuv10_n8_ok y u v hy hu hv
+theorem yuv10_n16_within_tolerance (y u v : Nat) (hy : y < 1024) (hu : u < 1024) (hv : v < 1024) :
+    yuvAll (admissible 65535) (Spec.yuv 10 y u v) (yuvTo 10 1 y u v) = true :=
+  Dds.YuvErr.yuv10_n16_ok y u v hy hu hv
+theorem yuv10_f32_within_tolerance (y u v : Nat) (hy : y < 1024) (hu : u < 1024) (hv : v < 1024) :
+    yuvAll admissibleF32 (Spec.yuv 10 y u v) (yuvTo 10 2 y u v) = true :=
+  (Dds.YuvErr.yuv10_f32_ok y u v hy hu hv).2
+
+/-- `yuv16::n8`, all 2^48 inputs -/
+theorem yuv16_n8_within_tolerance (y u v : Nat) (hy : y < 65536) (hu : u < 65536) (hv : v < 65536) :
+    yuvAll (admissible 255) (Spec.yuv 16 y u v) (yuvTo 16 0 y u v) = true :=
+  Dds.YuvErr.yuv16_n8_ok y u v hy hu hv
+theorem yuv16_n16_within_tolerance (y u v : Nat) (hy : y < 65536) (hu : u < 65536) (hv : v < 65536) :
+    yuvAll (admissible 65535) (Spec.yuv 16 y u v) (yuvTo 16 1 y u v) = true :=
+  Dds.YuvErr.yuv16_n16_ok y u v hy hu hv
+theorem yuv16_f32_within_tolerance (y u v : Nat) (hy : y < 65536) (hu : u < 65536) (hv : v < 65536) :
+    yuvAll admissibleF32 (Spec.yuv 16 y u v) (yuvTo 16 2 y u v) = true :=
+  (Dds.YuvErr.yuv16_f32_ok y u v hy hu hv).2
+
+/-- the bound actually proved for the F32 outputs, every depth, every input: each channel is finite and within
+`ε = 10·2^-24` (≈ 5.96e-7; the tolerance is `τ + 2^-24` ≈ 1.017e-6) of the ideal value -/
+theorem yuv_f32_error_bound (bits y u v : Nat) (hb : bits = 8 ∨ bits = 10 ∨ bits = 16)
+    (hy : y < 2 ^ bits) (hu : u < 2 ^ bits) (hv : v < 2 ^ bits) :
+    yuvAll (nearF32 (10 / 16777216)) (Spec.yuv bits y u v) (yuvTo bits 2 y u v) = true := by
+  rcases hb with rfl | rfl | rfl
+  · exact (Dds.YuvErr.yuv8_f32_ok y u v hy hu hv).1
+  · exact (Dds.YuvErr.yuv10_f32_ok y u v hy hu hv).1
+  · exact (Dds.YuvErr.yuv16_f32_ok y u v hy hu hv).1
+
+/-- SATURATION (most of the `u, v` cube): whenever the unclamped ideal value of a channel (`Spec.yuvRaw`) is at least
+`1 + 2^-20` the output is exactly the maximum — 255, 65535, the float 1.0 — and whenever it is at most `−2^-20` it is
+exactly 0 (the float `+0.0`), at every depth and precision, for all inputs.  (`Spec.satOk`; the margin 2^-20 covers
+the proved evaluation error `10·2^-24`.) -/
+theorem yuv_saturation (bits prec y u v : Nat) (hb : bits = 8 ∨ bits = 10 ∨ bits = 16) (hp : prec < 3)
+    (hy : y < 2 ^ bits) (hu : u < 2 ^ bits) (hv : v < 2 ^ bits) :
+    yuvAll (satOk prec) (Spec.yuvRaw bits y u v) (yuvTo bits prec y u v) = true := by
+  have hp' : prec = 0 ∨ prec = 1 ∨ prec = 2 := by omega
+  rcases hb with rfl | rfl | rfl
+  · obtain ⟨s2, s1, s0⟩ := Dds.YuvErr.yuv8_sat y u v (by omega) (by omega) (by omega)
+    rcases hp' with rfl | rfl | rfl
+    · exact s0
+    · exact s1
+    · exact s2
+  · obtain ⟨s2, s1, s0⟩ := Dds.YuvErr.yuv10_sat y u v (by omega) (by omega) (by omega)
+    rcases hp' with rfl | rfl | rfl
+    · exact s0
+    · exact s1
+    · exact s2
+  · obtain ⟨s2, s1, s0⟩ := Dds.YuvErr.yuv16_sat y u v (by omega) (by omega) (by omega)
+    rcases hp' with rfl | rfl | rfl
+    · exact s0
+    · exact s1
+    · exact s2
+example : yuvTo 8 2 255 255 255 = [one, 1056673386, one] ∧ yuvTo 8 2 0 0 0 = [0, 1057495908, 0] ∧
+    Spec.yuvRaw 8 255 255 255 = (240491483 / 127500000, 125286827 / 255000000, 178158667 / 85000000) ∧
+    Spec.yuvRaw 8 0 0 0 = (-13932599 / 15937500, 8473457 / 15937500, -5767413 / 5312500) ∧
+    (1 + 1 / 1048576 ≤ (Spec.yuvRaw 8 255 255 255).1) ∧ ((Spec.yuvRaw 8 0 0 0).1 ≤ -(1 / 1048576)) ∧
+    Spec.yuv 8 255 255 255 = (clamp01 (Spec.yuvRaw 8 255 255 255).1, clamp01 (Spec.yuvRaw 8 255 255 255).2.1,
+      clamp01 (Spec.yuvRaw 8 255 255 255).2.2) := by decide +kernel
+
+/-- the statement behind them — the standard model of floating-point arithmetic, proved for the software binary32: on
+finite operands whose exact result `v` lies in `(−2^E, 2^E)` (`E ≤ 127`, so no overflow) each of `a * b`, `a + b`,
+`a − b` is finite and within `2^(E−25)` (half an ulp of the binade below `2^E`) of `v` -/
+theorem f32_ops_standard_model (a b E : Nat) (ha : Dds.F32Err.FinP a) (hb : Dds.F32Err.FinP b) (hE : E ≤ 127) :
+    (-((2 ^ E : Nat) : Rat) < toRat a * toRat b → toRat a * toRat b < ((2 ^ E : Nat) : Rat) →
+      Dds.F32Err.FinP (fmul a b) ∧ Dds.F32Err.Near (toRat (fmul a b)) (toRat a * toRat b) (((2 ^ E : Nat) : Rat) / 33554432)) ∧
+    (-((2 ^ E : Nat) : Rat) < toRat a + toRat b → toRat a + toRat b < ((2 ^ E : Nat) : Rat) →
+      Dds.F32Err.FinP (fadd a b) ∧ Dds.F32Err.Near (toRat (fadd a b)) (toRat a + toRat b) (((2 ^ E : Nat) : Rat) / 33554432)) ∧
+    (-((2 ^ E : Nat) : Rat) < toRat a - toRat b → toRat a - toRat b < ((2 ^ E : Nat) : Rat) →
+      Dds.F32Err.FinP (fsub a b) ∧ Dds.F32Err.Near (toRat (fsub a b)) (toRat a - toRat b) (((2 ^ E : Nat) : Rat) / 33554432)) :=
+  ⟨fun h1 h2 => Dds.F32Err.fmul_ulp a b ha hb E _ hE rfl h1 h2, fun h1 h2 => Dds.F32Err.fadd_ulp a b ha hb E _ hE rfl h1 h2,
+    fun h1 h2 => Dds.F32Err.fsub_ulp a b ha hb E _ hE rfl h1 h2⟩
+example : Dds.F32Err.FinP 0x3F950A81 ∧ Dds.F32Err.FinP 0xC3000000 ∧ toRat 0x3F950A81 * toRat 0xC3000000 < ((2 ^ 8 : Nat) : Rat) ∧
+    -((2 ^ 8 : Nat) : Rat) < toRat 0x3F950A81 * toRat 0xC3000000 := by decide +kernel
+
+/-- and for the specification function itself: `roundF32 q` ("the nearest binary32 of `q`", the right-hand side of the
+`…_exact` / `…_eq_spec` theorems above) of ANY rational in the normal range `2^-126 ≤ |q| < 2^127` is a finite binary32
+within the relative error `2^-24` of `q` -/
+theorem roundF32_relative_error (q : Rat) (hlo : 1 ≤ q.abs * ((2 ^ 126 : Nat) : Rat)) (hhi : q.abs < ((2 ^ 127 : Nat) : Rat)) :
+    Dds.F32Err.FinP (roundF32 q) ∧ Dds.F32Err.Near (toRat (roundF32 q)) q (q.abs / 16777216) :=
+  Dds.F32Err.roundF32_rel q hlo hhi
+example : (1 : Rat) ≤ (1 / 3 : Rat).abs * ((2 ^ 126 : Nat) : Rat) ∧ (1 / 3 : Rat).abs < ((2 ^ 127 : Nat) : Rat) ∧
+    roundF32 (1 / 3) = 0x3EAAAAAB ∧ toRat 0x3EAAAAAB - 1 / 3 = 1 / 100663296 := by decide +kernel
+
+/-- non-vacuity / special values: black (`y = 16`, `u = v = 128` resp. the 10/16-bit offsets) is exactly 0 at every
+precision; nominal white (`y = 235`: ideal 254.999877/255) gives the maximum codes and the float `0x3F7FFFFA`
+(0.99999964, ideal 0.99999952); saturated corners; a tolerance-free check of three values against the specification -/
+example : yuvTo 8 0 16 128 128 = [0, 0, 0] ∧ yuvTo 8 1 16 128 128 = [0, 0, 0] ∧ yuvTo 8 2 16 128 128 = [0, 0, 0] ∧
+    yuvTo 10 2 64 512 512 = [0, 0, 0] ∧ yuvTo 16 1 4096 32768 32768 = [0, 0, 0] ∧ Spec.yuv 8 16 128 128 = (0, 0, 0) ∧
+    yuvTo 8 0 235 128 128 = [255, 255, 255] ∧ yuvTo 8 1 235 128 128 = [65535, 65535, 65535] ∧
+    yuvTo 8 2 235 128 128 = [0x3F7FFFFA, 0x3F7FFFFA, 0x3F7FFFFA] ∧
+    Spec.yuv 8 235 128 128 = (84999959 / 85000000, 84999959 / 85000000, 84999959 / 85000000) ∧
+    yuvTo 8 0 0 0 0 = [0, 136, 0] ∧ yuvTo 8 0 255 255 255 = [255, 125, 255] ∧
+    yuvTo 16 1 65535 0 65535 = [65535, 57737, 5438] ∧ yuvTo 8 0 81 90 240 = [254, 0, 0] ∧
+    Spec.yuv 8 81 90 240 = (254439919 / 255000000, 0, 0) := by decide +kernel
+example : yuvAll (admissible 255) (Spec.yuv 8 81 90 240) [254, 0, 0] = true ∧
+    yuvAll (admissible 255) (Spec.yuv 8 81 90 240) [253, 0, 0] = false ∧
+    yuvAll admissibleF32 (Spec.yuv 8 235 128 128) [0x3F7FFFFA, 0x3F7FFFFA, 0x3F7FFFFA] = true ∧
+    yuvAll admissibleF32 (Spec.yuv 8 235 128 128) [0x3F7FFF00, 0x3F7FFFFA, 0x3F7FFFFA] = false ∧
+    yuvAll admissibleF32 (Spec.yuv 8 235 128 128) [0x3F7FFFFA, 0x3F7FFFFA] = false := by decide +kernel
+
 
 end Dds.C04
